@@ -104,21 +104,23 @@ func (c *c03) Cases(tier string, seed int64) []core.Case {
 
 // p2Scenario is a built scenario ready for Verify/Repair.
 type p2Scenario struct {
-	env              *p2env
-	g                int
-	ops              []scen.Op
-	volsLost         int
-	volsTotal        int
-	wit              map[scen.SliceRef]bool
-	findable         map[scen.SliceRef]bool
-	skip             map[scen.SliceRef]bool
-	exps             []int
-	total            int
-	corruptVolume    string
-	symlinkedVolumes int
-	identical        []bool
-	nIdentical       int
-	identSlices      int
+	env               *p2env
+	g                 int
+	ops               []scen.Op
+	volsLost          int
+	volsTotal         int
+	wit               map[scen.SliceRef]bool
+	findable          map[scen.SliceRef]bool
+	skip              map[scen.SliceRef]bool
+	exps              []int
+	total             int
+	corruptVolume     string
+	symlinkedVolumes  int
+	duplicatedVolumes int
+	idxSpelled        string
+	identical         []bool
+	nIdentical        int
+	identSlices       int
 }
 
 func fixedSet(name string) (scen.Set, func(*scen.State, *rand.Rand) []scen.Op, string) {
@@ -398,6 +400,33 @@ func buildP2Scenario(r *core.R, p p2ScenParams) *p2Scenario {
 			}
 		}
 	}
+	// Some surviving recovery files exist twice (a copy under another name, or
+	// what an earlier Create with another block count leaves behind): a block
+	// is one block however often it is stored.
+	if p.Kind != "fixed" && rng.Intn(5) == 0 {
+		base := strings.TrimSuffix(filepath.Base(env.idx), ".par2")
+		for i, v := range env.volumeFiles() {
+			if rng.Intn(2) == 0 {
+				if b, err := os.ReadFile(v); err == nil {
+					os.WriteFile(filepath.Join(env.dir, fmt.Sprintf("%s.copy %d.par2", base, i)), b, 0644)
+					sc.duplicatedVolumes++
+				}
+			}
+		}
+	}
+	// The index path as the caller spells it: the same file, not in clean form.
+	sc.idxSpelled = env.idx
+	if p.Kind != "fixed" {
+		d, b := filepath.Dir(env.idx), filepath.Base(env.idx)
+		switch rng.Intn(6) {
+		case 0:
+			sc.idxSpelled = d + "/./" + b
+		case 1:
+			sc.idxSpelled = d + "//" + b
+		case 2:
+			sc.idxSpelled = d + "/../" + filepath.Base(d) + "/" + b
+		}
+	}
 	sc.wit = st.Witnessed()
 	sc.findable, sc.skip = st.Find()
 	sc.exps = env.availableExponents()
@@ -470,6 +499,12 @@ func (sc *p2Scenario) describe() map[string]interface{} {
 	if sc.symlinkedVolumes > 0 {
 		m["symlinked_volumes"] = sc.symlinkedVolumes
 	}
+	if sc.duplicatedVolumes > 0 {
+		m["duplicated_volumes"] = sc.duplicatedVolumes
+	}
+	if sc.idxSpelled != sc.env.idx {
+		m["index_spelled"] = sc.idxSpelled
+	}
 	return m
 }
 
@@ -504,7 +539,7 @@ func (c *c01) Run(cs core.Case) core.Result {
 	dc := p.Seed%3 == 0
 	core.Note("C01 Repair %v", sc.describe())
 	if pi := core.Protect(func() {
-		res, err = par2.Repair(env.idx, par2.RepairOptions{NumGoroutines: sc.g, DoubleCheck: dc})
+		res, err = par2.Repair(sc.idxSpelled, par2.RepairOptions{NumGoroutines: sc.g, DoubleCheck: dc})
 	}); pi != nil {
 		r.Violate(core.CrashSig("par2.Repair", pi.Frame, pi.Msg), "Repair panicked: %s\n%v\n%s", pi.Msg, sc.describe(), pi.Stack)
 		return r.Done()
@@ -573,7 +608,7 @@ func (c *c03) Run(cs core.Case) core.Result {
 	core.Note("C03 Verify %v", sc.describe())
 	before := scen.Snapshot(env.dir)
 	if pi := core.Protect(func() {
-		res, err = par2.Verify(env.idx, par2.VerifyOptions{NumGoroutines: sc.g})
+		res, err = par2.Verify(sc.idxSpelled, par2.VerifyOptions{NumGoroutines: sc.g})
 	}); pi != nil {
 		r.Violate(core.CrashSig("par2.Verify", pi.Frame, pi.Msg), "Verify panicked: %s\n%v", pi.Msg, sc.describe())
 		return r.Done()
@@ -628,7 +663,7 @@ func (c *c03) Run(cs core.Case) core.Result {
 	}
 	// What the command line tells the user about the same state.
 	if parExe := os.Getenv("VW_PAR_EXE"); parExe != "" && (p.Seed%7 == 0 || p.Kind == "fixed" || (!allIdentical && sh.UnusableDataShardCount == 0 && p.Seed%2 == 0)) {
-		cmd := exec.Command(parExe, "-g", "2", "v", env.idx)
+		cmd := exec.Command(parExe, "-g", "2", "v", sc.idxSpelled)
 		out, _ := cmd.CombinedOutput()
 		status := cmd.ProcessState.ExitCode()
 		want := 0
